@@ -1,0 +1,91 @@
+//go:build verif
+
+package lzhuf
+
+// Verification hooks (build tag "verif"): digests of internal state so that an external model can be
+// compared with the implementation step by step. Add-only; nothing here is compiled without the tag.
+
+type verifHash uint64
+
+func (h *verifHash) add(v uint64) { *h = verifHash((uint64(*h) ^ v) * 0x100000001b3) }
+
+func (z *lzhuf) verifDigest(h *verifHash, tree bool) {
+	for _, v := range z.freq {
+		h.add(uint64(v))
+	}
+	for _, v := range z.prnt {
+		h.add(uint64(v))
+	}
+	for _, v := range z.son {
+		h.add(uint64(v))
+	}
+	if tree {
+		for _, v := range z.dad {
+			h.add(uint64(v))
+		}
+		for _, v := range z.lson {
+			h.add(uint64(v))
+		}
+		for _, v := range z.rson {
+			h.add(uint64(v))
+		}
+	}
+	for _, v := range z.textBuf {
+		h.add(uint64(v))
+	}
+	if tree {
+		h.add(uint64(z.matchLength))
+		h.add(uint64(z.matchPosition))
+	}
+}
+
+// VerifDigest hashes every field of the compressor state.
+func (w *Writer) VerifDigest() uint64 {
+	h := verifHash(0xcbf29ce484222325)
+	w.z.verifDigest(&h, true)
+	h.add(uint64(w.putbuf))
+	h.add(uint64(w.putlen))
+	h.add(uint64(w.len))
+	h.add(uint64(w.r))
+	h.add(uint64(w.s))
+	h.add(uint64(w.lastMatchLength))
+	if w.preFilled {
+		h.add(1)
+	} else {
+		h.add(0)
+	}
+	h.add(uint64(uint32(w.fileSize)))
+	h.add(uint64(w.buf.Len()))
+	return uint64(h)
+}
+
+// VerifDigest hashes the decompressor state (Huffman tables, window, position, pending bytes).
+func (d *Reader) VerifDigest() uint64 {
+	h := verifHash(0xcbf29ce484222325)
+	d.z.verifDigest(&h, false)
+	h.add(uint64(uint32(d.state.pos)))
+	h.add(uint64(d.state.r))
+	h.add(uint64(d.state.buf.Len()))
+	return uint64(h)
+}
+
+// VerifMaxCodeLen returns the length of the longest Huffman code in the compressor's current tree.
+func (w *Writer) VerifMaxCodeLen() int {
+	max := 0
+	for c := 0; c < _NumChar; c++ {
+		n, k := 0, w.z.prnt[c+_T]
+		for {
+			n++
+			if k = w.z.prnt[k]; k == _R {
+				break
+			}
+		}
+		if n > max {
+			max = n
+		}
+	}
+	return max
+}
+
+// VerifUpdate drives the adaptive Huffman tree directly with a symbol (0..313).
+func (w *Writer) VerifUpdate(c int) { w.z.update(c) }
